@@ -491,68 +491,93 @@ PROPS["C20"] = {
 
 # proposed block for tools/qvconfig.py (written by the C07 helper; not applied)
 PROPS["C07"] = {
-    "no_escalation": True,  # the thorough tier spawns thousands of processes: a moved source pin is reported, the search stays quick
-    "gen": ["panic_sites.py"],
-    "lean": ["QV.Props.C07"],
-    "streams": ["c07"],
-    "rule": "each case is one input text (kind=oracle): (a) generated well-formed documents, clean and with planted errors "
-            "(c08::rich_document); (b) token-level mutations (delete/duplicate/swap/replace/insert tokens and token runs, "
-            "unbalanced brackets and quotes, stray é 中 😀 U+2028 U+FEFF NUL U+0301 U+200B U+10FFFF anywhere and inside "
-            "identifiers/strings/numbers, huge numbers, line-ending changes, case flips, wrapping in ≤ 60 brackets, double "
-            "mutations) and truncations at 7-byte steps of every /repo/examples/*.qml, of the r###\"…\"### QML snippets of "
-            "/repo/tests/*.rs, of generated and of stress documents; (c) token soup from a 147-token QML/JS vocabulary, bare and "
-            "inside an object body / binding / block / callback; (d) 260 semantic-stress documents aimed at the unwrap/expect "
-            "sites (buddy: null, actions: [] / [menuAction()], model: [] / null, icon.name: 1, shortcut: QKeySequence.Copy / "
-            "Qt.Key_A, cursor: 1, self references, duplicate ids, empty document, only imports/comments, BOM, CRLF, empty "
-            "switch, code after if/else, …); bounded nesting ≤ 60 of 12 kinds. Every text is translated in-process in all "
-            "three dynamic-binding modes under catch_unwind: no panic; a form that serialises and re-parses with the harness's "
-            "strict XML reader, or ≥ 1 syntax error / error diagnostic; every syntax-error, diagnostic and label range has "
-            "start ≤ end ≤ len on character boundaries; every report renders with codespan-reporting. ≥ 390 texts per quick "
-            "run (all stress documents, a 300-term sum, 200 nested objects, 40 mutations) also go through the real release CLI "
-            "binary in a fresh temp dir with a 20 s timeout: exit status 0 or 1, status 0 iff main.ui was written. "
-            "distinct = distinct request lines",
-    "trusted_base": [
-        "hand-written model QV.Model.Totality of tir/interpret.rs (evaluate_code), typeutil.rs (pick_type_cast, is_assignable, "
-        "deduce_type), tir/core.rs (resolve_return_type) and uigen/expr.rs (build_unchecked, parse_as_value_type, build_item_model, "
-        "build_object_ref_list); it has no correspondence stream of its own (no driver handlers): it is tied by review "
-        "(pins/C07_panic_sites.md) and by the stress documents of the c07 stream hitting every dispatch branch on the real code",
-        "wfCode (what the interpreter relies on from the TIR builder) is assumed, not proved: C05/C06 territory",
-        "tools/panic_sites.py: regex scan pinning the 138 panic sites (149 occurrences) of lib/src + src/main.rs + src/reporting.rs "
-        "with a hand-written verdict and argument each (pins/C07_panic_sites.json/.md); a new, vanished or unreviewed site breaks the obligation",
-        "tree-sitter, tree-sitter-qmljs, quick-xml, codespan-reporting: exercised, neither modelled nor reviewed",
-        "harness/src/xml.rs (strict XML 1.0 reader), the tokeniser/mutator of harness/src/streams/c07.rs",
-    ],
-    "assumptions": [
-        "the input is valid UTF-8 (the property's own scope; the CLI rejects other files with an I/O error, exit 1)",
-        "runtime behaviours a total Lean function cannot exhibit are outside the theorems and only tested: tree-sitter's "
-        "error-recovery tree shapes, stack depth on deeply nested input (F11), allocation failure",
-        "in-process inputs are ≤ 64 KiB with nesting ≤ 60; hangs are caught by the check's overall timeout in-process and by "
-        "the 20 s per-run timeout for the CLI",
-        "full statement `object_ref_valid` is refuted (F2) until .work/C07.fix-1.diff is applied",
-    ],
-    "level_text": "proof (PARTIAL by nature: the modelled core only; the parser (tree-sitter) and the CST adapters of lib/src/qmlast are "
-                  "tested, not proved): unwrap_never_fails — for every property type, return type and evaluated value of the shape of "
-                  "the return type (ShapeOf stated explicitly: int/uint→Integer, double→Float, bool→Bool, QString→String, enum→EnumSet, "
-                  "pointer→ObjectRef with `null` evaluating to no value, string list→StringList|EmptyList), SerializableValue::build "
-                  "takes none of its 9 unwrap_*/panic! branches; evaluated_shape — on builder-well-formed IR the interpreter's value "
-                  "has the shape of the resolved return type; interp_panics_only_unreachable — no index panic, the only remaining one is "
-                  "unreachable!() and only if a block is terminated Unreachable (property_never_panics_partial; the unconditional "
-                  "statement is refuted by a kernel-checked witness: F18, closed in /repo by d950e95); item_model_never_fails, "
-                  "object_ref_list_total; object_ref_valid refuted by witness (F2) + _partial + _repaired; ranges_in_bounds and "
-                  "callback_span_valid — every range formed from node ranges (node, end..end, 0..0, the s..e span of "
-                  "verify_callback_parameter_type) satisfies start ≤ end ≤ len with end points among node end points; termination: "
-                  "all model functions structurally recursive (the interpreter loop on the shrinking unvisited-block list). Re-exports "
-                  "C10.ensure_never_panics and C11.build_total. Everything else — 138 pinned panic sites each with a reviewed "
-                  "argument, parser/adapters/rendering/CLI exit status — is supporting evidence by the c07 fuzz stream, not proof.",
-    "level_note": "trusted: Lean kernel; the hand-written model (no differential stream of its own); the reviewed panic-site list "
-                  "(heuristic scan, re-compared on every run); NOT covered by any theorem and named as such: tree-sitter recovery shapes, "
-                  "the CST→AST adapters, stack depth (F11: release binary aborts at ≈ 2 780 left-nested terms / ≈ 5 300 nested objects), "
-                  "allocation failure, codespan rendering. Findings: F2 open (fix proposed), F11 (known finding or fix-3), F17/F18 found "
-                  "by this stream too and already repaired in /repo (ae9e12f, d950e95)",
-    "technique": "Lean 4 proof (shape invariant of the constant interpreter + case analysis of the type-check/unwrap dispatch; range "
-                 "arithmetic) + pinned, reviewed scan of all panic sites + 3-mode in-process fuzzing under catch_unwind with range/"
-                 "render/XML oracles + real-CLI exit-status runs",
-}
+    "no_escalation": True,  # the thorough tier spawns thousands of processes: a moved source pin is reported, the search stays quick'no_escalation': True,
+ 'gen': ['panic_sites.py'],
+ 'lean': ['QV.Props.C07'],
+ 'streams': ['c07'],
+ 'rule': 'each case is one input text (kind=oracle): (a) generated well-formed documents, clean and with planted errors (c08::rich_document); (b) '
+         'token-level mutations (delete/duplicate/swap/replace/insert tokens and token runs, unbalanced brackets and quotes, stray é 中 😀 U+2028 '
+         'U+FEFF NUL U+0301 U+200B U+10FFFF anywhere and inside identifiers/strings/numbers, huge numbers, line-ending changes, case flips, wrapping '
+         'in ≤ 60 brackets, double mutations) and truncations at 7-byte steps of every /repo/examples/*.qml, of the r###"…"### QML snippets of '
+         '/repo/tests/*.rs, of generated and of stress documents; (c) token soup from a 147-token QML/JS vocabulary, bare and inside an object body '
+         '/ binding / block / callback; (d) 321 stress documents: 260 semantic ones aimed at the unwrap/expect sites (buddy: null, actions: [] / '
+         '[menuAction()], model: [] / null, icon.name: 1, shortcut: QKeySequence.Copy / Qt.Key_A, cursor: 1, self references, duplicate ids, empty '
+         'document, only imports/comments, BOM, CRLF, empty switch, code after if/else, …), 22 label-stress documents (every diagnostic that carries '
+         'label ranges, with multi-byte text before / inside / after the labelled nodes, on one and on several lines, CRLF, tabs, at the last byte) '
+         'and 39 control-flow documents built systematically (switch with 0..3 cases × default absent / at every position, in a binding and in a '
+         'callback, nested switches with and without braces, if / else-if chains of depth 0..3 × braces × final else, nested ternaries, let/const '
+         'with and without annotation, callbacks with parameters, every call / array / member / cast shape, strings holding comment look-alikes); a '
+         '17th mutation `utf8-dense` (2/3/4-byte characters in every string and comment + multi-byte comments between tokens, then one more '
+         'mutation) so that any byte-count arithmetic on a range lands inside a character; bounded nesting ≤ 60 of 12 kinds. (e) TRIVIA (part of the '
+         'tie, not a clause of C07 proper: comments are extras of the grammar, so the outputs with and without them must be the same): for every '
+         'VALID document of the pool (generated, examples, test snippets, stress) the token boundaries are taken from the concrete syntax tree and '
+         'named by position class `parent-kind:previous|next` (268 classes in 57 parent kinds in a quick run: between object members, inside binding '
+         'expressions and statement blocks, between switch clauses, before/after `default:`, between `else` and `{`, in array literals, argument '
+         'lists, between `on<Signal>:` and the function, inside import lines, before and after the root object, …); comments (`/* c */`, `/**/`, `/* '
+         '/* */`, with é中😀, with quotes, with brackets, `// …\\n` variants) and blank space / blank lines / CRLF are put in (i) at EVERY boundary of '
+         'every stress document, one without and one with a line terminator, (ii) at a sample of boundaries per position class over the whole pool, '
+         '(iii) at all boundaries of a document at once (on a difference every boundary and every pair in one gap is tried alone) — ≈ 130 000 '
+         'insertions per quick run; the mutated text must pass the totality oracle AND give the same acceptance, the same diagnostics (kind + '
+         'message), the same .ui and header bytes in every mode. The 19 position classes at which the grammar itself parses differently (all only '
+         "with a line terminator: ECMAScript restricted productions return/break/continue/throw/yield/postfix ++ --/async/=>, `as`, tree-sitter's "
+         '`let`⏎ and `new`⏎, QML import / signal / `name: Type⏎{`) are listed with their reason in harness/src/streams/c07/trivia.rs; there only '
+         'totality is demanded and the observed effect is counted. Every text is translated in-process in all three dynamic-binding modes under '
+         "catch_unwind: no panic; a form that serialises and re-parses with the harness's strict XML reader, or ≥ 1 syntax error / error diagnostic; "
+         'every syntax-error, diagnostic and label range has start ≤ end ≤ len on character boundaries; every report renders with '
+         'codespan-reporting. ≥ 600 texts per quick run (all stress documents, a third also with --no-dynamic-binding, an eighth each in a '
+         'sub-directory with a non-ASCII name and above the working directory so that the report has to print a relative path, the control-flow '
+         'documents with a comment at a random and at every token boundary, a 300-term sum, 200 nested objects, 40 mutations) also go through the '
+         'real release CLI binary in a fresh temp dir with a 20 s timeout: exit status 0 or 1, status 0 iff main.ui was written, status 1 only with '
+         'a report that names the document. distinct = distinct request lines',
+ 'trusted_base': ['hand-written model QV.Model.Totality of tir/interpret.rs (evaluate_code), typeutil.rs (pick_type_cast, is_assignable, '
+                  'deduce_type), tir/core.rs (resolve_return_type) and uigen/expr.rs (build_unchecked, parse_as_value_type, build_item_model, '
+                  'build_object_ref_list); it has no correspondence stream of its own (no driver handlers): it is tied by review '
+                  '(pins/C07_panic_sites.md) and by the stress documents of the c07 stream hitting every dispatch branch on the real code',
+                  'wfCode (what the interpreter relies on from the TIR builder) is assumed, not proved: C05/C06 territory',
+                  'tools/panic_sites.py: regex scan pinning 189 panic sites (204 occurrences) of lib/src + src/main.rs + src/reporting.rs — the '
+                  'explicit ones (panic!/unreachable!/assert*/expect/unwrap/unwrap_*) AND 129 occurrences of operations that panic or abort '
+                  'implicitly (index 48, slice 20, insert(i,…)/remove(i)/swap_remove/split_at/drain/borrow_mut 24, integer / and % by a non-literal '
+                  '5, `as usize` 6, computed allocation sizes 9, process::exit 2, the 12 byte_range/start_byte/end_byte accessors and 3 hand-made '
+                  'a..b ranges) — with a hand-written verdict and argument each (pins/C07_panic_sites.json/.md); every site also pins a hash of its '
+                  'enclosing function, and the 92 sites whose argument rests on code elsewhere name it (128 guard references: functions, the whole '
+                  "tir/builder.rs, the grammar's version in Cargo.lock) and pin its hash too: a new, vanished or unreviewed site, or a site whose "
+                  'guard changed, breaks the obligation',
+                  'tree-sitter, tree-sitter-qmljs, quick-xml, codespan-reporting: exercised, neither modelled nor reviewed',
+                  'harness/src/xml.rs (strict XML 1.0 reader), the tokeniser/mutator of harness/src/streams/c07.rs',
+                  "harness/src/streams/c07/trivia.rs: the position classes are read off tree-sitter's own tree; the table of grammar exceptions was "
+                  'filled from a survey (160 insertions per class) and is part of the oracle: a difference at a listed class is not reported'],
+ 'assumptions': ["the input is valid UTF-8 (the property's own scope; the CLI rejects other files with an I/O error, exit 1)",
+                 "runtime behaviours a total Lean function cannot exhibit are outside the theorems and only tested: tree-sitter's error-recovery "
+                 'tree shapes, stack depth on deeply nested input (F11), allocation failure',
+                 "in-process inputs are ≤ 64 KiB with nesting ≤ 60; hangs are caught by the check's overall timeout in-process and by the 20 s "
+                 'per-run timeout for the CLI',
+                 'full statement `object_ref_valid` is refuted (F2) until .work/C07.fix-1.diff is applied'],
+ 'level_text': 'proof (PARTIAL by nature: the modelled core only; the parser (tree-sitter) and the CST adapters of lib/src/qmlast are tested, not '
+               'proved): unwrap_never_fails — for every property type, return type and evaluated value of the shape of the return type (ShapeOf '
+               'stated explicitly: int/uint→Integer, double→Float, bool→Bool, QString→String, enum→EnumSet, pointer→ObjectRef with `null` evaluating '
+               'to no value, string list→StringList|EmptyList), SerializableValue::build takes none of its 9 unwrap_*/panic! branches; '
+               "evaluated_shape — on builder-well-formed IR the interpreter's value has the shape of the resolved return type; "
+               'interp_panics_only_unreachable — no index panic, the only remaining one is unreachable!() and only if a block is terminated '
+               'Unreachable (property_never_panics_partial; the unconditional statement is refuted by a kernel-checked witness: F18, closed in /repo '
+               'by d950e95); item_model_never_fails, object_ref_list_total; object_ref_valid refuted by witness (F2) + _partial + _repaired; '
+               'ranges_in_bounds and callback_span_valid — every range formed from node ranges (node, end..end, 0..0, the s..e span of '
+               'verify_callback_parameter_type) satisfies start ≤ end ≤ len with end points among node end points; switch_default_position_le_cases '
+               '/ switch_insert_never_panics / switch_remove_never_panics — for EVERY sequence of child kinds of a switch body (comments anywhere, '
+               'error nodes, several defaults) the position SwitchStatement::with_cursor hands to `Vec::insert` (typedexpr.rs walk_stmt) and '
+               '`Vec::remove` (tir/builder.rs visit_switch_statement) is in range; switch_comments_are_trivia; the variant that counts skipped '
+               'comments (seeded change C07/1) is refuted by a kernel-checked witness (counting_extras_refuted); termination: all model functions '
+               'structurally recursive (the interpreter loop on the shrinking unvisited-block list). Re-exports C10.ensure_never_panics and '
+               'C11.build_total. Everything else — 189 pinned explicit and implicit panic sites each with a reviewed argument and pinned guards, '
+               'parser/adapters/rendering/CLI exit status — is supporting evidence by the c07 fuzz stream, not proof.',
+ 'level_note': 'trusted: Lean kernel; the hand-written model (no differential stream of its own); the reviewed panic-site list (heuristic scan, '
+               're-compared on every run); NOT covered by any theorem and named as such: tree-sitter recovery shapes, the CST→AST adapters, stack '
+               'depth (F11: release binary aborts at ≈ 2 780 left-nested terms / ≈ 5 300 nested objects), allocation failure, codespan rendering. '
+               'Findings: F2 open (fix proposed), F11 (known finding or fix-3), F60 (comment between switch clauses rejected: a valid program '
+               "refused, C05's clause; found by the trivia family, repaired in /repo fe4f921, regression "
+               'corpus/C07/f60_switch_clause_comment.c07.req), F17/F18 found by this stream too and already repaired in /repo (ae9e12f, d950e95)',
+ 'technique': 'Lean 4 proof (shape invariant of the constant interpreter + case analysis of the type-check/unwrap dispatch; range arithmetic) + '
+              'pinned, reviewed scan of all explicit and implicit panic sites with pinned guards + 3-mode in-process fuzzing under catch_unwind with '
+              'range/render/XML oracles + comment/blank insertion at every token boundary with an equal-outputs oracle + real-CLI exit-status runs'}
 
 PROPS["C03"] = {
     "gen": ["gen_verif_env.py"],
